@@ -984,7 +984,16 @@ func (in *Interp) eval(st *State, e ast.Expr) []valState {
 		}
 		return out
 	case *ast.StarExpr:
-		return in.evalForEffects(st, []ast.Expr{e.X}, in.c.typeOf(e))
+		// dereference keeps the abstract value of what is pointed to (address-of does the same)
+		var out []valState
+		for _, vs := range in.eval(st, e.X) {
+			v := vs.v
+			if v.K != vTag {
+				v = Value{K: vUnknown, T: in.c.typeOf(e)}
+			}
+			out = append(out, valState{vs.st, v})
+		}
+		return out
 	case *ast.UnaryExpr:
 		var out []valState
 		for _, vs := range in.eval(st, e.X) {
